@@ -229,6 +229,14 @@ theorem C20_checkRun (capacity batchdiv : Nat) (dones : List Bool) (ops : List O
     checkRun capacity (batchCap capacity batchdiv) dones ops (dRun (dInit capacity batchdiv dones) ops).2 = some "bad-event" :=
   checkRun_model capacity batchdiv dones ops
 
+/-- … and for scripts a client can issue (`LegalRun`: every operation addresses an existing search; `Acquire` is the
+    first call on it; `Yield` / `Release` come while it has a process and no call of it is blocked — what the harness
+    generates) the statement holds outright -/
+theorem C20_checkRun_legal (capacity batchdiv : Nat) (dones : List Bool) (ops : List Op)
+    (hleg : LegalRun (dInit capacity batchdiv dones) ops) :
+    checkRun capacity (batchCap capacity batchdiv) dones ops (dRun (dInit capacity batchdiv dones) ops).2 = none :=
+  checkRun_model_legal capacity batchdiv dones ops hleg
+
 /-- non-vacuity of `C20_checkRun`: a script with blocking, cancellation while queued, a move to batch that wakes a
     waiter, a failed move to batch and repeated `Release` is accepted (`none`, not `bad-event`) -/
 example :
